@@ -198,7 +198,7 @@ UNITS["C17"] = [
 _LEXFNS = ["new", "nth", "bump", "next_token", "whitespace", "comment", "string", "hyphen_or_minus", "number", "eat_octal_digits", "eat_hex_digits",
            "eat_decimal_digits", "cid", "glyph_class_name", "eat_ident", "ident", "path", "is_special", "is_ascii_whitespace"]
 _LEXPOST = {
-    "next_token": "T1 final.pos == old.pos + r.len <= |input| (lossless tiling); T2 old.pos < |input| => r.len >= 1 (progress); T3 r.kind == Eof <=> old.pos == |input|; T4 utf8_shape(input) and old.pos on a char boundary => final.pos on a char boundary; input unchanged; all index/arith obligations",
+    "next_token": "T1 final.pos == old.pos + r.len <= |input| (lossless tiling); T2 old.pos < |input| => r.len >= 1 (progress); T3 r.kind == Eof <=> old.pos == |input|; r.kind is never the Tombstone placeholder; T4 utf8_shape(input) and old.pos on a char boundary => final.pos on a char boundary; input unchanged; all index/arith obligations",
     "new": "the lexer starts at byte 0 of exactly the text it was given: pos == 0, input unchanged, mode flags clear",
     "nth": "returns input[pos+index] or 0 past the end; no overflow",
     "bump": "advances by exactly one byte iff pos < |input| and returns it; frame",
@@ -222,6 +222,15 @@ UNITS["C13"] = [
        "every valid UTF-8 input of exactly 3 bytes, first two tokens", "valid UTF-8, |input| == 3", "lexer starts at byte 0; T1, T2, T3, T4 on the first two next_token calls", timeout_s=1800, on_demand=True, companion=True),
     _k("c13_from_keyword_never_eof", "fea-rs", "fea-rs/src/parse/lexer/lexeme.rs", ["fea_rs::parse::lexer::lexeme::Kind::from_keyword"], "bounded",
        "every byte word of length <= 26 (longest keyword has 25 bytes)", "|word| <= 26", "result is never Some(Eof/Tombstone/Ident/Whitespace); empty word => None  (the contract the Verus proof assumes for this external_body function)", timeout_s=900),
+    _k("c13_token_set_is_a_set_of_kinds", "fea-rs", "fea-rs/src/parse/lexer/token_set.rs",
+       ["fea_rs::parse::lexer::token_set::TokenSet::{new,add,union,contains}", "fea_rs::parse::lexer::token_set::mask", "<TokenSet as From<Kind>>::from"], "complete",
+       "every lexer Kind (all 125) and every set (all u128 bit patterns); loop-free", "any kinds k, q; any sets s, t",
+       "Tombstone (the last Kind) < 128, so mask() never overflows (debug == release, no aliasing of kinds); EMPTY contains nothing; add/union/new/From are the set operations; membership of one kind is independent of other kinds - what the parser's recovery ('skip to a recovery set') relies on"),
+    _k("c13_token_set_recovery_constants", "fea-rs", "fea-rs/src/parse/lexer/token_set.rs", ["TokenSet::{TOP_LEVEL,TOP_SEMI,SEMI,SEMI_RBRACE}"], "complete", "constants", "-",
+       "top-level keywords and ';' are members as named; Eof is a member of none (skipping stops at end of input by the at_eof test)"),
+    _k("c13_to_token_kind_total_for_every_forwarded_kind", "fea-rs", "fea-rs/src/parse/lexer/lexeme.rs", ["fea_rs::parse::lexer::lexeme::Kind::to_token_kind", "fea_rs::parse::lexer::lexeme::Kind::is_trivia"], "complete",
+       "every lexer Kind except StringUnterminated / HexEmpty (replaced by the parser before forwarding) and Tombstone (never lexed: Verus contract); loop-free", "kind is forwardable",
+       "to_token_kind does not panic; only Eof maps to Eof; trivia are exactly Comment / Whitespace / Backslash"),
     _k("c13_lexer_cover", "fea-rs", "fea-rs/src/parse/lexer.rs", [], "complete", "", "", "identifier, non-ASCII character, number reachable in the companion's input generator", kind="cover", timeout_s=1800, on_demand=True),
 ]
 
